@@ -153,15 +153,31 @@ impl AstFields
 
     pub fn extract_as_bool(
         &mut self,
-        _report: &mut diagn::Report,
+        report: &mut diagn::Report,
         field_name: &str)
         -> Result<bool, ()>
     {
         let field = self.extract_optional(field_name);
         match field
         {
-            Some(_) => Ok(true),
             None => Ok(false),
+            Some(field) => match field.maybe_expr
+            {
+                // `#fill` / `fill` on its own
+                None => Ok(true),
+
+                // `fill = true` / `fill = false`
+                Some(expr::Expr::Literal(_, expr::Value::Bool(value))) => Ok(value),
+
+                Some(expr) =>
+                {
+                    report.error_span(
+                        "expected boolean literal",
+                        expr.span());
+
+                    Err(())
+                }
+            }
         }
     }
 
